@@ -138,7 +138,6 @@ func SelfTest() []string {
 		`-A c -p tcp -m tcp --tcp-flags SYN SYN --jump DROP`,
 		`-A c --jump DNAT --to-destination 1.2.3.4`,
 		`-A c -m set --match-set foo src,dst --jump DROP`,
-		`-A c -m icmp --icmp-type 8 --jump DROP`,
 		`-A c ! --jump DROP`,
 		`-I c --jump DROP`,
 	} {
